@@ -37,6 +37,8 @@ def shards(tier):
         for fmt in ("raw", "json", "quicklogger"):
             for n in (0, 1, 2, 3, 4):
                 for sub in (0, 1):
+                    if sub and n >= 3:
+                        continue    # subdivision x >= 3 messages: 2 symbolic deadline bits per message on top of the schedule do not finish in 900 s (measured three times); subdivision is explored with <= 2 messages
                     # budget: the number of schedules grows with messages x subdivision points; the deeper combinations get fewer
                     # contested scheduling decisions (measured: with >= 3 messages and subdivision, or 4 messages, 12-16 contested decisions do not finish in 900 s)
                     bits = 20 if n <= 2 else ((16 if n == 3 else 10) if not sub else 8)
@@ -53,7 +55,7 @@ def shards(tier):
 def obligations(tier):
     return [Obligation("every_interleaving_writes_each_message_once_in_order", "harness.c17_logger", "log", shards(tier), cond_timeout=900, path_timeout=120,
                        reach="log_reach", reach_shards=[{"fmt": "raw", "n": 2, "bits": 12}], encoded=ENC,
-                       bounds="0-3 messages (4 in thorough), 1-2 data sets, optionally a second recording on the same collection/data-set objects after a stop, raw/json/quicklogger formatters, pause/resume around one message, flush and subdivision deadlines before any message; <= 12-14 (quick) / 16-20 (thorough) scheduling decisions between the recorder and the writer thread",
+                       bounds="0-3 messages (4 in thorough), 1-2 data sets, optionally a second recording on the same collection/data-set objects after a stop, raw/json/quicklogger formatters, pause/resume around one message, flush deadlines before any message, subdivision deadlines with <= 2 messages; <= 12-14 (quick) / 16-20 (thorough) scheduling decisions between the recorder and the writer thread",
                        symbolic="the schedule bits, the per-message flush-deadline and subdivision-deadline bits")]
 
 
